@@ -302,6 +302,97 @@ AllOps(ns, size) ==
   <<NTrue, NFalse>> \o [i \in 1 .. ns |-> NSurf(i - 1)] \o [i \in 1 .. size |-> NNot(i - 1)]
   \o JoinOps("and", size) \o JoinOps("or", size)
 
+\* ------------------------- directed family for transform_negated_joins (shared negations)
+(* DeMorganSimplifier decides per node whether the original join J, its De Morgan dual, a
+   new negation ... must exist in the new tree by looking at the PARENTS of J and of !J.
+   Mistakes there (first / any / last parent, negated / plain parent, volume or not) only show
+   when !J (or J) is SHARED by several parent joins of different kinds; such trees need >= 7
+   growing inserts and lie outside the exhaustive scope.  This family enumerates them:
+     J      all(a,b) | any(a,b) | all(a, any(b,c)) | all(a, !any(b,c)) with !any(b,c) itself
+            shared by a plain join (one level deeper)
+     parents  2 or 3 joins P_i = op_i(x_i, y_i), op_i in {all, any}, x_i in {!J, J}, y_i a fresh
+            surface (s3, s4, s5), each optionally followed by its negation !P_i, in EVERY order (sequences,
+            not sets), the negations either right after their join or after all parents
+     J      not used otherwise | also a volume | also used positively in another join all(J, c)
+     volume sets  all tops (P_i or !P_i) | each top alone | everything (tops, negated P_i, !J)
+   A case is SYMBOLIC: op operands are handles = indices of earlier ops of the case (surfaces:
+   the surface id), so it does not presuppose which node ids the real insert returns.
+   level 1 (quick): 2 parents in full, 3 parents with x_i = !J only; level 2: everything.    *)
+FamNS == 6
+FamDigits(i, radices) ==
+  FoldLeft(LAMBDA acc, r : [d |-> Append(acc.d, acc.q % r), q |-> acc.q \div r], [d |-> <<>>, q |-> i], radices).d
+FOp(k, h) == [k |-> k, h |-> h]
+PKindOp(pk) == IF pk % 2 = 0 THEN "and" ELSE "or"
+PKindNeg(pk) == (pk \div 2) % 2 = 1
+PKindLinkJ(pk) == pk \div 4 = 1
+\* jf: form of J; ps: parent kinds; np: 0 negations right after their join, 1 after all parents;
+\* ju: 0 J not used otherwise, 1 J is a volume, 2 J used positively by E = all(J, s2);
+\* level 1 logs the single-top volume sets only for two-parent cases
+FamCase(level, jf, ps, np, ju) ==
+  LET S(x) == x + 1                                    \* handle of surface x (ops 1..6)
+      surf == [x \in 1 .. FamNS |-> FOp("surf", <<x - 1>>)]
+      h1 == FamNS + 1                                   \* first op after the surfaces
+      pre == CASE jf = 0 -> <<FOp("and", <<S(0), S(1)>>)>>
+               [] jf = 1 -> <<FOp("or", <<S(0), S(1)>>)>>
+               [] jf = 2 -> <<FOp("or", <<S(1), S(2)>>), FOp("and", <<S(0), h1>>)>>
+               [] jf = 3 -> <<FOp("or", <<S(1), S(2)>>), FOp("not", <<h1>>), FOp("or", <<h1 + 1, S(5)>>),
+                              FOp("and", <<S(0), h1 + 1>>)>>
+      hJ == FamNS + Len(pre)
+      useN == \E i \in DOMAIN ps : ~PKindLinkJ(ps[i])
+      hN == hJ + 1
+      ops1 == surf \o pre \o (IF useN THEN <<FOp("not", <<hJ>>)>> ELSE <<>>)
+      st1 == FoldLeft(LAMBDA acc, i :
+                LET o1 == Append(acc.ops, FOp(PKindOp(ps[i]), <<IF PKindLinkJ(ps[i]) THEN hJ ELSE hN, S(2 + i)>>))
+                    hp == Len(o1)
+                IN IF PKindNeg(ps[i]) /\ np = 0
+                   THEN [ops |-> Append(o1, FOp("not", <<hp>>)), par |-> Append(acc.par, hp), top |-> Append(acc.top, hp + 1)]
+                   ELSE [ops |-> o1, par |-> Append(acc.par, hp), top |-> Append(acc.top, hp)],
+              [ops |-> ops1, par |-> <<>>, top |-> <<>>], [i \in DOMAIN ps |-> i])
+      st2 == FoldLeft(LAMBDA acc, i :
+                IF PKindNeg(ps[i]) /\ np = 1
+                THEN [acc EXCEPT !.ops = Append(acc.ops, FOp("not", <<acc.par[i]>>)), !.top[i] = Len(acc.ops) + 1]
+                ELSE acc,
+              st1, [i \in DOMAIN ps |-> i])
+      ops3 == IF ju = 2 THEN Append(st2.ops, FOp("and", <<hJ, S(2)>>)) ELSE st2.ops
+      extra == IF ju = 1 THEN <<hJ>> ELSE IF ju = 2 THEN <<Len(ops3)>> ELSE <<>>
+      negpar == SelectSeq(st2.par, LAMBDA h : \E i \in DOMAIN ps : st2.par[i] = h /\ PKindNeg(ps[i]))
+      vall == st2.top \o extra
+      veach == IF level >= 2 \/ Len(ps) = 2
+               THEN [i \in DOMAIN ps |-> <<st2.top[i]>> \o (IF ju = 1 THEN <<hJ>> ELSE <<>>)] ELSE <<>>
+      vevery == vall \o negpar \o (IF useN THEN <<hN>> ELSE <<>>)
+  IN [ops |-> ops3, volsets |-> <<vall>> \o veach \o (IF vevery # vall THEN <<vevery>> ELSE <<>>),
+      par |-> [jf |-> jf, ps |-> ps, np |-> np, ju |-> ju]]
+\* negations "after all parents" differ from "right after" only if a non-last parent is negated
+FamValid(ps, np) == np = 0 \/ \E i \in 1 .. (Len(ps) - 1) : PKindNeg(ps[i])
+\* The family is indexed by a RAW index r in 0 .. FamTotal(level) - 1 (mixed radix over the
+\* parameters: first the two-parent cases, then the three-parent ones); r is a member iff
+\* FamIsCase(level, r).  (Raw indices let the trace spec check completeness case by case.)
+FamTwo == 4 * 8 * 8 * 2 * 3
+FamThree(level) == IF level >= 2 THEN 4 * 8 * 8 * 8 * 2 * 3 ELSE 4 * 4 * 4 * 4 * 1 * 2
+FamTotal(level) == FamTwo + FamThree(level)
+FamParams(level, r) ==
+  IF r < FamTwo
+  THEN LET d == FamDigits(r, <<4, 8, 8, 2, 3>>) IN
+       [jf |-> d[1], ps |-> <<d[2], d[3]>>, np |-> d[4], ju |-> d[5]]
+  ELSE LET d == FamDigits(r - FamTwo, IF level >= 2 THEN <<4, 8, 8, 8, 2, 3>> ELSE <<4, 4, 4, 4, 1, 2>>) IN
+       [jf |-> d[1], ps |-> <<d[2], d[3], d[4]>>, np |-> d[5], ju |-> IF level >= 2 THEN d[6] ELSE 2 * d[6]]
+FamIsCase(level, r) == LET q == FamParams(level, r) IN FamValid(q.ps, q.np)
+FamCaseAt(level, r) == LET q == FamParams(level, r) IN FamCase(level, q.jf, q.ps, q.np, q.ju)
+DMFamily(level) ==
+  LET rs == SelectSeq([i \in 1 .. FamTotal(level) |-> i - 1], LAMBDA r : FamIsCase(level, r)) IN
+  [i \in DOMAIN rs |-> LET c == FamCaseAt(level, rs[i]) IN [ri |-> rs[i], ops |-> c.ops, volsets |-> c.volsets, par |-> c.par]]
+\* well-formedness of a symbolic case: handles point to earlier ops, surfaces in range
+FamCaseWF(c) ==
+  /\ \A j \in DOMAIN c.ops :
+        LET o == c.ops[j] IN
+        IF o.k = "surf" THEN Len(o.h) = 1 /\ o.h[1] >= 0 /\ o.h[1] < FamNS
+        ELSE /\ o.k \in {"not", "and", "or"} /\ (o.k = "not" => Len(o.h) = 1)
+             /\ \A i \in DOMAIN o.h : o.h[i] >= 1 /\ o.h[i] < j
+  /\ \A v \in DOMAIN c.volsets : \A i \in DOMAIN c.volsets[v] :
+        c.volsets[v][i] >= 1 /\ c.volsets[v][i] <= Len(c.ops)
+\* the concrete request for op j given the ids returned for the earlier ops
+FamRequest(o, ids) == IF o.k = "surf" THEN NSurf(o.h[1]) ELSE Nd(o.k, [i \in DOMAIN o.h |-> ids[o.h[i]]])
+
 \* ------------------------------------------------- abstract operations (relations)
 \* The function denoted by a *requested* node over the truth tables tt of the current tree
 ReqSem(ns, op, tt) == NodeSem(ns, op, tt)
